@@ -83,6 +83,15 @@ pub fn factorial_f64(x: f64, fl: &Flags) -> R<f64> {
     }
 }
 
+/// a zero whose sign the statements leave open (sgn(+-0), the mean / extremum / median of zeros) must not decide a result:
+/// 1/+0 and 1/-0, atan2(+0,-1) and atan2(-0,-1) differ.  Such a use is outside what is asserted.
+pub fn free_zero(fl: &Flags, operands: &[f64], r: f64, sign_sensitive: bool) -> R<()> {
+    if fl.zero_sign_free.get() && !fl.scope_only.get() && operands.iter().any(|x| *x == 0.0) && (r.is_infinite() || (sign_sensitive && r != 0.0)) {
+        return Err(Stop::Unspec("SignOfFreeZeroObserved"));
+    }
+    Ok(())
+}
+
 pub fn sgn_f64(x: f64, fl: &Flags) -> R<f64> {
     if x.is_nan() { return Err(Stop::Unspec("SignOfNaN")); }
     if x == 0.0 { fl.zero_sign_free.set(true); return Ok(0.0); }
@@ -207,22 +216,23 @@ impl Sem for F64Sem {
     fn bin(&self, op: &str, a: f64, b: f64) -> R<f64> {
         match op {
             "add" | "sub" => { let r = if op == "add" { a + b } else { a - b }; ill_conditioned(&self.flags, a, b, r)?; Ok(r) }
-            "mul" => Ok(a * b), "div" => Ok(a / b),
+            "mul" => Ok(a * b), "div" => { free_zero(&self.flags, &[b], a / b, false)?; Ok(a / b) }
             "mod" => { if self.flags.tol.get() > 0.0 && !self.flags.scope_only.get() { return Err(Stop::Unspec("RemainderOfInexactOperand")); } Ok(a % b) }
-            "pow" => { amplifies(&self.flags, b)?; neg_base_inexact(&self.flags, a)?; if a.fract() == 0.0 && b.fract() == 0.0 && b < 0.0 { self.flags.int_negpow.set(true); } Ok(a.powf(b)) }
+            "pow" => { amplifies(&self.flags, b)?; neg_base_inexact(&self.flags, a)?; if a.fract() == 0.0 && b.fract() == 0.0 && b < 0.0 { self.flags.int_negpow.set(true); } free_zero(&self.flags, &[a], a.powf(b), false)?; Ok(a.powf(b)) }
             _ => Err(Stop::Unspec("UnknownBinary")),
         }
     }
     fn sup(&self, base: f64, digits: &str) -> R<f64> {
         let n = digits.parse::<f64>().map_err(|_| Stop::Err("malformed superscript"))?;
         amplifies(&self.flags, n)?;
+        free_zero(&self.flags, &[base], base.powf(n), false)?;
         Ok(base.powf(n))
     }
     fn call(&self, func: &str, args: Vec<f64>) -> R<f64> {
         match func {
             "Min" | "Max" | "Avg" | "Med" => agg_f64(func, &args, &self.flags),
-            "Mod" | "Pow" | "Atan2" | "Log" | "Root" | "ILog" => fn2_f64(func, args[0], args[1], &self.flags),
-            _ => fn1_f64(func, args[0], &self.flags),
+            "Mod" | "Pow" | "Atan2" | "Log" | "Root" | "ILog" => { let r = fn2_f64(func, args[0], args[1], &self.flags)?; free_zero(&self.flags, &args, r, func == "Atan2")?; Ok(r) }
+            _ => { let r = fn1_f64(func, args[0], &self.flags)?; free_zero(&self.flags, &args[..1], r, false)?; Ok(r) }
         }
     }
 }
